@@ -396,6 +396,43 @@ void c03_case(Ctx& c, Rng& r) {
         sig = hx::mix(sig, hx::mix(kind, hx::mix(ek, must_reject)));
         vclk::advance(nanoseconds(static_cast<std::int64_t>(r.below(3 * NS))));
     }
+    // "expires no later than": walk the bounds in time order; just past each bound (with a tick in between, as the
+    // daemon does every second) nothing derived from that chunk's manifests may still be live or served
+    std::vector<std::pair<std::int64_t, std::string>> order;
+    for (auto& [ck, bnd] : bound_steady) order.emplace_back(bnd, ck);
+    std::sort(order.begin(), order.end());
+    for (auto& [bnd, ck] : order) {
+        const auto now = fx::steady_ns();
+        if (bnd + 1 > now) vclk::advance(nanoseconds(bnd + 1 - now));
+        f.node->tick();
+        f.drain(peer);
+        c.note("derived.expiry-points-checked");
+        const auto desc = [&](const char* what) { return J().kv("what", what).kv("past_bound_ns", fx::steady_ns() - bnd).kv("min_ttl", mn).kv("max_ttl", mx).str(); };
+        ChunkId cid{};
+        bool have_id = false;
+        for (unsigned n = 0; n < 4 && !have_id; ++n) { cid = fx::chunk_id_n(n + 16 * static_cast<unsigned>(c.cur_case % 8)); have_id = chunk_id_to_string(cid) == ck; }
+        // a pending fetch is bounded by the manifest's own expiry (it is not one of the capped lifetimes)
+        if (f.node->pending_chunk_fetches_.count(ck) && fx::system_ns() > bound_system[ck])
+            c.violation("C03:outlives-manifest:pending-fetch-still-queued-after-expiry", desc("pending-fetch"));
+        if (have_id) {
+            if (f.node->dht_.shard_record(cid).has_value()) c.violation("C03:outlives-manifest:key-shares-still-served-after-expiry", desc("key-shares"));
+            if (f.node->export_chunk_record(cid).has_value()) c.violation("C03:outlives-manifest:replica-still-served-after-expiry", desc("replica"));
+            if (!f.node->dht_.find_providers(cid).empty()) c.violation("C03:outlives-manifest:provider-contact-still-returned-after-expiry", desc("provider-contact"));
+        }
+    }
+    // pending fetches: just past the manifest's own expiry (skipping expiries centuries away), after one tick, none may remain
+    std::vector<std::pair<std::int64_t, std::string>> fetch_order;
+    for (auto& [ck, st] : f.node->pending_chunk_fetches_) if (bound_system.count(ck) && bound_system[ck] - fx::system_ns() < 400LL * 86400 * NS) fetch_order.emplace_back(bound_system[ck], ck);
+    std::sort(fetch_order.begin(), fetch_order.end());
+    for (auto& [own_expiry, ck] : fetch_order) {
+        const auto wnow = fx::system_ns();
+        if (own_expiry + 1 > wnow) vclk::advance(nanoseconds(own_expiry + 1 - wnow));
+        f.node->tick();
+        f.drain(peer);
+        c.note("derived.pending-fetch-expiry-points-checked");
+        if (f.node->pending_chunk_fetches_.count(ck))
+            c.violation("C03:outlives-manifest:pending-fetch-still-queued-after-expiry", J().kv("past_expiry_ns", fx::system_ns() - own_expiry).str());
+    }
     c.sig(sig);
     if (c.cur_case % 199 == 0) c.sample(J().kv("min_ttl", mn).kv("max_ttl", mx).kv("arrivals", narr).str());
 }
